@@ -1,4 +1,5 @@
 """C18 — exceeding an analysis budget only disables optimisation, never correctness."""
+from ..mir import parent_fn
 from ..flow import origins
 from ..guards import ne, sh
 from ..mir import show
@@ -266,7 +267,40 @@ def r2b_derived_bounds_shape(ctx):
             ctx.bad("liveness-bound|not-multiplicative", lb.where(), "the liveness event bound no longer multiplies per-function work with the number of locals")
 
 
-RULES = [("C18-R1", r1_skip_path), ("C18-R2", r2_every_cap_compared), ("C18-R2b", r2b_derived_bounds_shape), ("C18-R3", r3_no_plan_runs_everything), ("C18-R3b", r3b_facts_independent_of_plan)]
+def r4_caps_only_gate_the_analyses(ctx):
+    """The limits are consulted where the decision "analyse or skip" is taken - the preflight, the summary budget, the place
+    that reports the skip - and nowhere else.  In particular nothing that *records* resolution facts (the binding tables the
+    runtime dispatches on) looks at a cap: a program over a limit is resolved exactly like one under it."""
+    import json as _json
+    from ..mir import fields_read
+    ALLOWED = {
+        "analysis::limits::first_exceeded_limit": "the preflight itself",
+        "analysis::summary::compute_summaries": "budget of the summary fixpoint (its exhaustion marks summaries unavailable)",
+        "resolver::Resolver::emit_analysis_warnings": "decides between running the analyses and reporting the skip",
+        "analysis::limits::summary_event_bound": "derived bound used by the preflight",
+        "analysis::limits::liveness_event_bound": "derived bound used by the preflight",
+    }
+    readers = {}
+    for fid, fn in ctx.lib.fns.items():
+        pid = parent_fn(fid)
+        if "as std::fmt::Debug" in pid or "as std::clone::Clone" in pid or "as std::cmp::PartialEq" in pid:
+            continue
+        rd = fields_read(fn, "AnalysisCaps")
+        uses_default = "DEFAULT_CAPS" in _json.dumps(fn.m["blocks"])
+        if rd or uses_default:
+            readers.setdefault(pid, set()).update(rd or {"DEFAULT_CAPS"})
+    for pid, what in sorted(readers.items()):
+        f = ctx.lib.fns.get(pid)
+        if f is not None:
+            ctx.touch(f)
+        if pid in ALLOWED:
+            ctx.ok("caps-reader|%s" % pid.split("::")[-1], f.where() if f else "", ALLOWED[pid])
+        else:
+            ctx.bad("caps-reader|%s" % pid, f.where() if f else "src", "%s consults the analysis limits (%s): only the preflight, the summary budget and the skip report may. A routine that records resolution facts and stops at a limit leaves the binding tables incomplete, so an over-limit program is no longer resolved like a smaller one (calls fall back to by-name lookup on the run-time scope stack)" % (pid, sorted(what)[:3]))
+    ctx.floor("bodies that consult the analysis limits", len(readers), 3)
+
+
+RULES = [("C18-R1", r1_skip_path), ("C18-R2", r2_every_cap_compared), ("C18-R2b", r2b_derived_bounds_shape), ("C18-R3", r3_no_plan_runs_everything), ("C18-R3b", r3b_facts_independent_of_plan), ("C18-R4", r4_caps_only_gate_the_analyses)]
 
 EXPLANATION = (
     "R1: in Resolver::emit_analysis_warnings the preflight count and first_exceeded_limit(.., DEFAULT_CAPS) dominate every "
@@ -276,6 +310,9 @@ EXPLANATION = (
     "(observed > limit) against the quantity it bounds, and the true outcome returns Some(limit). R3: without a plan the "
     "runtime's pruning predicates answer false. Decides the shape of the skip path and the coverage/strictness of the caps; "
     "does not decide result equality just below / at / above each default cap (would need 262 144-statement programs to run)."
+)
+EXPLANATION += (
+    " Added after a seeded change was missed: R4 the analysis limits (fields of AnalysisCaps, DEFAULT_CAPS) are read only by the preflight, the summary budget and the routine that reports the skip; nothing that records resolution facts consults a cap, so an over-limit program is resolved like a smaller one."
 )
 ASSUMPTIONS = ["the only budget preflight is Resolver::emit_analysis_warnings (who-may-call of first_exceeded_limit is checked by the floor)"]
 TRUSTED = ["rustc nightly MIR", "nsx exporter", "nsverif region/edge-dominance computation"]
